@@ -241,6 +241,12 @@ class State:
     def assume(self, z):
         if z is True or (z3.is_bool(z) and z3.is_true(z)):
             return
+        if z is False:
+            z = z3.BoolVal(False)
+        zid = z.get_id()
+        for q in self.pc[-40:]:
+            if q.get_id() == zid:
+                return        # already assumed (the same law instance is often produced repeatedly)
         self.pc.append(z)
 
 
@@ -386,8 +392,9 @@ class Exec:
         if isinstance(z, bool):
             return [(st, z)]
         out = []
-        t_ok = smt.feasible(st.pc + [z])
-        f_ok = smt.feasible(st.pc + [z3.Not(z)])
+        cx = smt.Ctx(st.pc)
+        t_ok = cx.feasible_with(z)
+        f_ok = cx.feasible_with(z3.Not(z))
         if t_ok and f_ok:
             s2 = st.fork()
             st.assume(z)
@@ -807,6 +814,8 @@ class Exec:
             if m is not None:
                 return m
             raise PyExc('AttributeError', '%s.%s' % (o.kind, name))
+        if isinstance(o, Opaque) and isinstance(o.data, dict) and name in (o.data.get('methods') or {}):
+            return Func('%s.%s' % (o.name, name), self_val=o, model=o.data['methods'][name])
         if isinstance(o, Opaque) and o.name == 'super':
             mro = list(o.data['cls'].__mro__)
             for k in mro[mro.index(o.data['cls']) + 1:]:
@@ -1399,6 +1408,21 @@ class Exec:
             facts, self._facts = self._facts, old_facts
         for f in facts:
             st.assume(f)
+        regs = [x[0].ghost['__mfacts__'] for x in r if '__mfacts__' in x[0].ghost]
+        if regs:
+            # registry of ghost-law terms seen so far (union over the forks of the spec evaluation)
+            m = {'M': [], 'N': []}
+            for g in regs:
+                for k in ('M', 'N'):
+                    for e in g[k]:
+                        if not any(e is e2 or (len(e) == len(e2) and all(a is b or (not hasattr(a, 'eq') and a == b)
+                                                                          for a, b in zip(e, e2))) for e2 in m[k]):
+                            m[k].append(e)
+            st.ghost['__mfacts__'] = m
+        if not r:
+            if smt.feasible(st.pc):
+                raise OutsideSubset('spec expression %r has no value in a feasible state' % text[:60])
+            return True       # dead state
         if len(r) != 1:
             # a spec that forks: combine as (pc_i => v_i) for all i
             parts = []
